@@ -1,5 +1,5 @@
 (* C09 — property theorems for the code as it is after fixes 1f61a03, 4ce6577 and 3c40407 (statements only; proofs in Proofs_*.v). *)
-From Sdns Require Import Common.Base Gen.C09 C09.Model C09.Proofs_Maps C09.Proofs_Rev C09.Proofs_Step C09.Proofs_Refute C09.Proofs_Prov C09.Proofs_Thm C09.Proofs_Hist C09.Proofs_Live C09.Proofs_Wf.
+From Sdns Require Import Common.Base Gen.C09 C09.Model C09.Proofs_Maps C09.Proofs_Rev C09.Proofs_Step C09.Proofs_Refute C09.Proofs_Prov C09.Proofs_Thm C09.Proofs_Hist C09.Proofs_Live C09.Proofs_Wf C09.Proofs_Inv C09.Proofs_KeyTag.
 Open Scope N_scope.
 
 (* A DNSKEY response carrying no valid signature made with the key material of a
@@ -163,6 +163,19 @@ Theorem revocation_never_again :
 Proof. exact revocation_never_again_lemma. Qed.
 Print Assumptions revocation_never_again.
 
+(* One-state invariant: after EVERY event — an AutoTA run with any response, clock and faults, a crash
+   after any prefix of its file replacements, a restart with any configuration and start-up read
+   fault — from ANY state, no key in the live trust set has its key material recorded as revoked on
+   the disk that event leaves behind (tombstone entry, or StateRevoked/StateRemoved marker).  No
+   premise on where the record came from (accepted revocation, configured REVOKE-flagged key, legacy
+   marker) and the run that creates the record is included. *)
+Theorem live_never_recorded_revoked :
+  forall (tag : key -> N) (s : sys) (e : event) (m : N),
+    let s' := step tag s e in
+    durable m (s_disk s') -> forall key, In key (s_live s') -> k_mat key <> m.
+Proof. exact live_never_recorded_revoked_lemma. Qed.
+Print Assumptions live_never_recorded_revoked.
+
 (* Liveness of revocation: a REVOKE-flagged, self-signed form K' of a trusted anchor K, present in the
    response (not shadowed by another key of the same tag), material not yet on record, IS accepted —
    for every tag function (no relation between tag K' and tag K is needed since 1f61a03), whatever
@@ -205,3 +218,19 @@ Theorem missing_expires :
     (f_twrite fl = false \/ f_swrite fl = false -> ~ In (ta_key a) (r_live r)).
 Proof. exact missing_expires_lemma. Qed.
 Print Assumptions missing_expires.
+
+(* The real key tag.  keytag_of = dnssec.KeyTag for single-chunk keys (head and fold written from keytag.go,
+   the octet-sum loop TRANSLATED from the function body, gen_keytag_octet_sum; tied to the code by the CTag
+   cases).  Setting the REVOKE bit moves the tag by 128 or by 129 (mod 2^16) — both occur (Example
+   keytag_revoke_adds_128_or_129 on real keys) — so the anchor of a revoked DNSKEY cannot be found by a
+   constant tag delta; the code uses unrevokedKeyTag (1f61a03), and every theorem above holds for an arbitrary
+   tag function. *)
+Theorem keytag_revoke_moves_tag_by_128_or_129 :
+  forall flags proto alg material,
+    flags < 65536 -> N.land flags 128 = 0 -> proto < 256 -> alg < 256 ->
+    Forall (fun x => x < 256) material -> (length material <= 192)%nat ->
+    let t := keytag_of flags proto alg material in
+    let t' := keytag_of (flags + 128) proto alg material in
+    t' = (t + 128) mod 65536 \/ t' = (t + 129) mod 65536.
+Proof. exact keytag_revoke_delta. Qed.
+Print Assumptions keytag_revoke_moves_tag_by_128_or_129.
